@@ -90,4 +90,4 @@ def num_to_str(n: Optional[float], fmt: str) -> Optional[str]:
         if fraction_length == 9:
             return f"{sign}{w}:{m:02d}:{s:05.2f}"
 
-    return fmt % n
+    return (fmt % n).strip()
